@@ -602,11 +602,30 @@ func (tr *FnTrans) run() {
 		}
 	}
 	tr.globalFacts()
-	if _, ok := tr.w.ghosts["held"]; ok {
-		// a mutex inside a not yet allocated object is not held
-		vc.compDecl(ghostComp("held"), arrSort(sortInt, sortInt))
-		h0 := vc.hget(tr.cur, ghostComp("held"))
-		vc.fact(fmt.Sprintf("(forall ((i Int)) (! (=> (>= i %s) (= (select %s i) 0)) :pattern ((select %s i))))", tr.entryAlloc, h0, h0), "")
+	// ghost maps keyed by references (map[ref]T): entries of objects that do
+	// not exist yet have the zero value (a mutex inside a not yet allocated
+	// object is not held, a channel not yet made is not closed)
+	var gnames []string
+	for n := range tr.w.ghosts {
+		gnames = append(gnames, n)
+	}
+	sort.Strings(gnames)
+	for _, n := range gnames {
+		g := tr.w.ghosts[n]
+		gt := strings.ReplaceAll(g.Type, " ", "")
+		if !strings.HasPrefix(gt, "map[ref]") {
+			continue
+		}
+		es := ghostSort(gt[len("map[ref]"):])
+		zero := "0"
+		if es == sortBool {
+			zero = "false"
+		} else if es != sortInt {
+			continue
+		}
+		vc.compDecl(ghostComp(n), arrSort(sortInt, es))
+		h0 := vc.hget(tr.cur, ghostComp(n))
+		vc.fact(fmt.Sprintf("(forall ((i Int)) (! (=> (>= i %s) (= (select %s i) %s)) :pattern ((select %s i))))", tr.entryAlloc, h0, zero, h0), "")
 	}
 	tr.modComps = map[string]bool{}
 	tr.modByComp = map[string][]modTarget{}
@@ -768,7 +787,16 @@ func (tr *FnTrans) loopHeader(li *loopInfo, phiEntry map[*ssa.Phi]Val) {
 	if !tr.scan && tr.fc != nil && !tr.fc.ModAll && tr.loopMods != nil {
 		for _, c := range tr.loopMods[b.Index] {
 			srt, ok := vc.compSort[c]
-			if !ok || c == compAlloc || c == "*" || strings.HasPrefix(c, "G$") || strings.HasPrefix(c, "V$") || strings.HasPrefix(c, "R$") || strings.HasPrefix(c, "L$") || tr.wholeMod(c) {
+			if !ok || c == compAlloc || c == "*" || strings.HasPrefix(c, "V$") || strings.HasPrefix(c, "R$") || strings.HasPrefix(c, "L$") || strings.HasPrefix(c, "D$") || tr.wholeMod(c) {
+				continue
+			}
+			if strings.HasPrefix(c, "G$") {
+				// ghost state: unchanged unless the modifies clause names it
+				// (partially named maps keep their other entries)
+				if len(tr.modByComp[c]) > 0 && !strings.HasPrefix(srt, "(Array") {
+					continue
+				}
+				li.frameComps = append(li.frameComps, c)
 				continue
 			}
 			if !strings.HasPrefix(srt, "(Array Int ") {
@@ -845,6 +873,10 @@ func (tr *FnTrans) frameTerm(li *loopInfo, h *Heap) string {
 			ps = append(ps, tr.frameFormula(c, cur, ent, tr.modByComp[c], true))
 			continue
 		}
+		if strings.HasPrefix(c, "G$") {
+			ps = append(ps, sEq(cur, ent))
+			continue
+		}
 		ps = append(ps, fmt.Sprintf("(forall ((i Int)) (! (=> %s (= (select %s i) (select %s i))) :pattern ((select %s i))))", tr.vc.existedAt("i", tr.entryAlloc), cur, ent, cur))
 	}
 	return sAnd(ps...)
@@ -916,6 +948,17 @@ func (tr *FnTrans) loopCtx(li *loopInfo, override map[ssa.Value]Val, heap *Heap)
 					}
 				}
 				return tr.vals[phi], true
+			}
+		}
+		if name == "visited" {
+			// ghost visited set of the map range this loop iterates
+			for _, in := range li.header.Instrs {
+				if nx, ok := in.(*ssa.Next); ok {
+					if rs := tr.ranges[nx.Iter]; rs != nil {
+						srt := tr.vc.compSort[rs.done]
+						return Val{K: KArr, T: tr.vc.hget(heap, rs.done), Sort: srt}, true
+					}
+				}
 			}
 		}
 		return tr.lookupLocal(name, at, heap)
